@@ -508,10 +508,19 @@ func execCase(c proto.Case, o *proto.Out) []string {
 				outs[i] = "order-unreachable"
 				continue
 			}
+			if tries > 1 {
+				o.Count("map-order-retries")
+			}
 			o.Count("ep-" + p.ep)
 			o.Count("phase-" + ph)
 			o.Count("status-" + strconv.Itoa(st))
 			o.Count("fault-" + p.faultKind)
+			if p.gate {
+				o.Count(fmt.Sprintf("gate-mid-%d", len(mid)))
+			}
+			if p.method != "PUT" {
+				o.Count("method-" + p.method)
+			}
 			if ph == "cleanup" || ph == "save" || ph == "reload" || ph == "ok" {
 				nontrivial = true
 			}
